@@ -57,6 +57,15 @@ def cases(seed, tier):
                             "d": rng.choice([2, 3, 4, 7]), "s": rng.choice([0.3, 0.4, 0.5]),
                             "seed": sub_seed(seed, "c09s", k)})
                 k += 1
+    # histories on ONE object: the functional is called, the object's containers are rebound to freshly derived tensors (what every
+    # training-loop iteration does), and the functional is called again - the second call must still see the object's current tensors
+    for fname in funcs.FUNCTIONALS:
+        for holder in ("list", "dict", "subobject", "nnmodule", "attribute"):
+            for r in range(1 if tier == "quick" else 4):
+                rng = random.Random(sub_seed(seed, "c09rb", fname, holder, r))
+                out.append({"group": "rebind", "functional": fname, "rep": "rebind_" + holder, "holder": holder, "derived": True, "rg": [1, 1, 1],
+                            "d": rng.choice([2, 3, 7]), "s": 0.4, "ncalls_before": rng.choice([1, 2]), "seed": sub_seed(seed, "c09s", k)})
+                k += 1
     return out
 
 
@@ -121,7 +130,130 @@ def _grads(outs, leaves, cots, cots2, seed, is_mc):
     return [x.detach() for x in g1], (None if g2 is None else [x.detach() for x in g2])
 
 
+def _rebind_object(holder, core, nlead, s):
+    """an EditableModule keeping its three tensors in the given kind of holder, with a method to rebind the holders"""
+    import xitorch
+
+    class Sub(object):
+        pass
+
+    class Mod(torch.nn.Module):
+        pass
+
+    class E(xitorch.EditableModule):
+        def rebind(self, a, b, W):
+            if holder == "list":
+                self.h = [a, b, W]
+            elif holder == "dict":
+                self.h = {"a": a, "b": b, "W": W}
+            elif holder == "subobject":
+                self.h = Sub()
+                self.h.a, self.h.b, self.h.W = a, b, W
+            elif holder == "nnmodule":
+                self.h = Mod()
+                # non-leaf tensors are plain attributes of the module; leaves would be Parameters
+                self.h.a, self.h.b, self.h.W = a, b, W
+            else:
+                self.a, self.b, self.W = a, b, W
+
+        def get(self):
+            if holder == "list":
+                return self.h[0], self.h[1], self.h[2]
+            if holder == "dict":
+                return self.h["a"], self.h["b"], self.h["W"]
+            if holder in ("subobject", "nnmodule"):
+                return self.h.a, self.h.b, self.h.W
+            return self.a, self.b, self.W
+
+        def fwd(self, *lead):
+            a, b, W = self.get()
+            return core(*lead, a, b, W, s)
+
+        def getparamnames(self, methodname, prefix=""):
+            if methodname != "fwd":
+                raise KeyError(methodname)
+            names = {"list": ["h[0]", "h[1]", "h[2]"], "dict": ["h['a']", "h['b']", "h['W']"], "subobject": ["h.a", "h.b", "h.W"],
+                     "nnmodule": ["h.a", "h.b", "h.W"], "attribute": ["a", "b", "W"]}[holder]
+            return [prefix + n for n in names]
+    return E()
+
+
+def run_rebind(desc):
+    obs = Obs(desc)
+    fname, holder, d, s = desc["functional"], desc["holder"], desc["d"], desc["s"]
+    dtype = torch.float64
+    tg = torch.Generator().manual_seed(desc["seed"])
+    F = funcs.FUNCTIONALS[fname]
+    lv_ref = funcs.make_leaves(d, tg, dtype)
+    lv_rep = funcs.clone_leaves(lv_ref)
+    mech = "%s:rebind_%s" % (fname, holder)
+    tol = 1e-6 if F.iterative else 1e-8
+    # reference: pure function on the final derived tensors
+    try:
+        with WarnLog():
+            built_ref = funcs.build("pure", F.core, F.nlead, funcs.effective(lv_ref, True), s)
+            out_ref = F.run(built_ref, d, dtype, None)
+            outs_ref = list(out_ref) if isinstance(out_ref, (tuple, list)) else [out_ref]
+    except Exception as e:
+        raise HarnessBug("reference (pure function) run failed for %s: %s: %s" % (fname, type(e).__name__, e))
+    obj = _rebind_object(holder, F.core, F.nlead, s)
+    built = funcs.Built(obj.fwd, (), [("e", obj)], ())
+    try:
+        with WarnLog():
+            for i in range(desc["ncalls_before"]):
+                # earlier iterations: other derived tensors (a perturbed derivation), results dropped
+                a, b, W = funcs.effective(lv_rep, True)
+                obj.rebind(a * (1.0 + 0.1 * (i + 1)), b + 0.05, W * 0.9)
+                o = F.run(built, d, dtype, None)
+                oo = list(o) if isinstance(o, (tuple, list)) else [o]
+                g0 = torch.autograd.grad(sum(x.sum() for x in oo), [lv_rep[k] for k in funcs.LEAF_NAMES], allow_unused=True)
+                del o, oo, g0
+            # the iteration that is compared: containers rebound to the tensors derived from the current leaves
+            obj.rebind(*funcs.effective(lv_rep, True))
+            out = F.run(built, d, dtype, None)
+            outs = list(out) if isinstance(out, (tuple, list)) else [out]
+    except Exception as e:
+        obs.exc_violation("forward:" + mech, e)
+        obs.nontrivial = True
+        return obs.result()
+    scale = max(1.0, max(float(o.detach().abs().max()) for o in outs_ref))
+    verr = max(float((a.detach() - b.detach()).abs().max()) for a, b in zip(outs_ref, outs))
+    obs.check(verr <= tol * scale, "value:" + mech, "value after rebinding the object's containers differs from the pure-function form by %.3e" % verr)
+    cots = [torch.randn(o.shape, generator=tg, dtype=dtype) for o in outs_ref]
+    leaves_ref = [lv_ref[k] for k in funcs.LEAF_NAMES]
+    leaves_rep = [lv_rep[k] for k in funcs.LEAF_NAMES]
+    cots2 = [torch.randn(l.shape, generator=tg, dtype=dtype) for l in leaves_ref]
+    try:
+        g1_ref, g2_ref = _grads(outs_ref, leaves_ref, cots, cots2, desc["seed"], False)
+    except Exception as e:
+        raise HarnessBug("reference backward failed for %s: %s: %s" % (fname, type(e).__name__, e))
+    try:
+        g1, g2 = _grads(outs, leaves_rep, cots, cots2, desc["seed"], False)
+    except Exception as e:
+        obs.exc_violation("backward:" + mech, e)
+        obs.nontrivial = True
+        return obs.result()
+    gs = max(1.0, max(float(g.abs().max()) for g in g1_ref))
+    for n, a, b in zip(funcs.LEAF_NAMES, g1_ref, g1):
+        err = float((a - b).abs().max())
+        obs.check(err <= tol * gs, "grad1:" + mech, "first-order gradient w.r.t. leaf %s differs by %.3e after the containers were rebound" % (n, err), leaf=n)
+    obs.count("first_order_compared", 3)
+    if g2_ref is not None and g2 is not None:
+        gs2 = max(1.0, max(float(g.abs().max()) for g in g2_ref))
+        for n, a, b in zip(funcs.LEAF_NAMES, g2_ref, g2):
+            err = float((a - b).abs().max())
+            obs.check(err <= 10 * tol * gs2, "grad2:" + mech, "second-order gradient w.r.t. leaf %s differs by %.3e after the containers were rebound" % (n, err), leaf=n)
+        obs.count("second_order_compared", 3)
+    else:
+        obs.check((g2_ref is None) == (g2 is None), "grad2_presence:" + mech, "second-order graph present for one side only")
+    obs.count("rebind_histories")
+    obs.nontrivial = True
+    return obs.result()
+
+
 def run_case(desc):
+    if desc.get("group") == "rebind":
+        return run_rebind(desc)
     obs = Obs(desc)
     fname, rep, derived, d, s = desc["functional"], desc["rep"], desc["derived"], desc["d"], desc["s"]
     dtype = torch.float64
